@@ -13,6 +13,8 @@ def run_op(ra, p, j=None):
     op = p["op"]
     if op == "sum0":
         return ra.sum(axis=0) if p.get("via") != "np" else np.sum(ra, axis=0)
+    if op == "mean0":
+        return ra.mean(axis=0) if p.get("via") != "np" else np.mean(ra, axis=0)
     if op == "col_counts":
         return ra.col_counts()
     if op == "colvals":
@@ -43,6 +45,17 @@ def sym(E, p, kf):
     case = dict(p=p, lens=lens, data=data, j=j)
     if got["k"] != "array" or len(got["shape"]) != 1:
         return dict(goal=False, got=got, case=case)
+    if p["op"] == "mean0":
+        n = got["shape"][0]
+        conds = [z3.And(*[l <= n for l in lens]), z3.Or(*[l == n for l in lens])]
+        fdiv = z3.Function("uf_idiv_f64", z3.IntSort(), z3.IntSort(), z3.BitVecSort(64))
+        starts, _ = specs.prefix_starts(lens)
+        D = specs.store_of(data)
+        for c in range(n):
+            sm = z3.Sum([z3.If(l > c, z3.Select(D, s + c), 0) for s, l in zip(starts, lens)])
+            cnt = z3.Sum([z3.If(l > c, 1, 0) for l in lens])
+            conds.append(specs.eqv(got["flat"][c], fdiv(sm, cnt)))
+        return dict(goal=specs.conj(conds), got=got, case=case)
     if got["dtype"] == "float64":
         # weighted bincount returns float64: the cells are int->float conversions of exact integer sums; compare the integers
         got = dict(got, dtype="int64", flat=[(np._fp_to_int(g, np.dtype("float64"), np.dtype("int64")) if z3.is_expr(g) else (int(g) if isinstance(g, float) else g)) for g in got["flat"]])
@@ -80,11 +93,14 @@ def conc(case):
     ra = mk_ragged(RaggedArray, data, lens, p["dtype"])
     def run():
         r = run_op(ra, p, j)
-        if isinstance(r, np.ndarray) and r.dtype.kind == "f" and np.all(r == np.round(r)):
+        if p["op"] != "mean0" and isinstance(r, np.ndarray) and r.dtype.kind == "f" and np.all(r == np.round(r)):
             r = r.astype(np.int64)      # weighted bincount returns float64; C09 claims the numbers, not the element type
         return r
     got = outcome(run)
     m = max(lens)
+    if p["op"] == "mean0":
+        vals = [np.mean(np.array([r[c] for r in rows if len(r) > c], dtype=p["dtype"])) for c in range(m)]
+        return got, common.ref_array(common.cells(np.array(vals, dtype="float64")), [len(vals)], "float64"), {"float_eq": True}
     if p["op"] == "sum0":
         vals = [sum(int(r[c]) for r in rows if len(r) > c) for c in range(m)]
     elif p["op"] == "col_counts":
@@ -100,6 +116,8 @@ def jobs(tier, seed):
     out = [dict(base, op="sum0", dtype=dt) for dt in ("int64", "bool", "uint8")]
     out.append(dict(base, op="sum0", dtype="int64", via="np"))
     out.append(dict(base, op="col_counts", dtype="int64"))
+    out.append(dict(base, op="mean0", dtype="int64", R=3))
+    out.append(dict(base, op="mean0", dtype="int64", via="np", R=3))
     out.append(dict(base, op="colvals", dtype="int64", R=3 if q else 4))
     return [dict(h="C09.columns", p=p) for p in out]
 
